@@ -49,7 +49,7 @@ META = {
             "In R, sqrt(negative)=0 and x/0=0: the planning theorems prove the radicands non-negative and the divisors "
             "non-zero, so they do not rest on these conventions.",
     "technique": "Rocq proof over R (field/nra/lra, Coquelicot is_derive/continuous glued across phase boundaries, loop "
-                 "invariant by induction on fuel) + the seven evaluation functions regenerated by a translator and proved equal to the "
+                 "invariant by induction on fuel) + a_trajtrap_gen and the seven evaluation functions regenerated by a translator and proved equal to the "
                  "model on every run + bit-exact primitive-float model vs C correspondence + numeric "
                  "well-formedness/limit oracle on the C output",
     "category": "proof",
@@ -792,9 +792,9 @@ def run(ctx):
     ctx.prove()
     # second tie: the seven evaluation functions are REGENERATED from the current sources by the translator and proved equal to the
     # hand model, for every NumOps instance
-    ctx.translate_and_tie([("src/trajtrap.c", ["a_trajtrap_pos", "a_trajtrap_vel", "a_trajtrap_acc"]),
+    ctx.translate_and_tie([("src/trajtrap.c", ["a_trajtrap_gen", "a_trajtrap_pos", "a_trajtrap_vel", "a_trajtrap_acc"]),
                            ("src/trajbell.c", ["a_trajbell_pos", "a_trajbell_vel", "a_trajbell_acc", "a_trajbell_jer"])],
-                          "GenTraj", H / "TieTraj.v", have=1, real=8)
+                          "GenTraj", [H / "TieTraj.v", H / "TieTrapGen.v"], have=1, real=8)
     ctx.assumptions += ["floating-point rounding is not proved: the WF residuals of every C context are measured with relative "
                         "tolerance %g" % TOL,
                         "C built with gcc -O2 -ffp-contract=off: binary64 operation by operation; sqrt correctly rounded",
